@@ -323,11 +323,21 @@ def r3_tiers(ctx):
             tv = astx.u(n.targets[0])
             g = astx.unique_def(f.node, astx.u(n.value.func.value))
             ctx.check(g is not None and astx.u(g) == f"PairwiseComparisonGraph({f.params[1]})", f, n, "DominatingSets builds the graph of the step's profile", "", "graph is not built from the step's profile")
+    # the tier list is a list ordered by construction (clauses above), so indexing a copy of it that was mapped element by
+    # element is mapping the indexed tier: tuple(frozenset(s) for s in tiers)[0] == frozenset(tiers[0])
+    import copy
+    from vk.canon import IndexThroughMap
+
+    def thru(e):
+        return astx.u(ast.fix_missing_locations(IndexThroughMap().visit(copy.deepcopy(e)))) if e is not None else None
     kw = {}
     for sc in elect.state_ctor_calls(prog, f):
-        kw = {k: astx.u(astx.unique_def(f.node, v.id) if isinstance(v, ast.Name) else v) for k, v in elect.state_kwargs(prog, sc).items()}
+        kw = {k: thru(astx.unique_def(f.node, v.id) if isinstance(v, ast.Name) else v) for k, v in elect.state_kwargs(prog, sc).items()}
     # (which candidates are struck does not depend on the container they are handed over in)
-    rc = [astx.u(astx.strip_wrappers(c.args[0], ("list", "tuple", "frozenset", "set"))) for c in astx.calls_in(f.node, "remove_cand")]
+    rc = []
+    for c in astx.calls_in(f.node, "remove_cand"):
+        a0 = ast.parse(thru(c.args[0]), mode="eval").body
+        rc.append(astx.u(astx.strip_wrappers(a0, ("list", "tuple", "frozenset", "set"))))
     good = tv is not None and kw.get("elected") == f"(frozenset({tv}[0]),)" and kw.get("remaining") == astx.A(f"tuple([frozenset(s) for s in {tv}[1:]])") and rc == [f"{tv}[0]"]
     ctx.check(good, f, f.node, "DominatingSets elects exactly tier 0, keeps tiers[1:] in order, removes tier 0", str(kw), f"DominatingSets records {kw}, removes {rc}")
     f = prog.find_func("CondoBorda._run_step")
